@@ -10,21 +10,25 @@ from harness.rigs import software as rig
 
 MANIFEST = {
     "text": "Lean 4 proof about an executable model of Service / Application / Software (lifecycle methods, request validators, "
-            "countdowns) and of a node's software layer (SoftwareManager.install/uninstall, the four registries, request routes, "
-            "ticks and power events fanned out to every instance, get_open_ports, payload delivery): every operation moves a service "
-            "or application only along the documented transitions; a lifecycle request succeeds exactly in its documented source "
+            "countdowns) and of a node's software layer (SoftwareManager.install with its 'already installed' guard and the eviction "
+            "of an installed instance of the same name, uninstall, the registries incl. the class map, request routes, ticks and "
+            "power events fanned out to every instance, get_open_ports, payload delivery, send): every operation moves a service or "
+            "application only along the documented transitions; a lifecycle request succeeds exactly in its documented source "
             "states with the node ON and changes nothing otherwise; restart completes at the (d+1)-th and install at the max(1,d)-th "
-            "tick delivered to the instance, ticks being delivered only while the node is ON and no request addressed to another "
-            "instance delivering anything; apply_timestep never raises on reachable states; an open port always has a RUNNING owner; "
-            "a payload gets past the running-guard only of RUNNING software on an ON node (partial: classes whose receive() has no "
-            "guard are excluded by an explicit hypothesis, with a proved counterexample); the registries agree after every "
-            "install/uninstall sequence that never installs an already-installed name (partial: the dead 'already installed' guard "
-            "F-22 is excluded by hypothesis, with a proved counterexample). Tie: guard tables, validators, countdown idioms, enum "
-            "values, defaults, the shipped-class table, the docs masking table regenerated from the source (Gen/Software.lean) with "
-            "obligations C13_gen_*; differential rig R-svc on a real Computer over every shipped service and application class.",
+            "tick delivered to the instance — stated both per instance and as ONE theorem over Node.run (refinement along any "
+            "operation sequence, ticks delivered only by apply_timestep while the node is ON or by a direct call, nothing else "
+            "touching the countdown); apply_timestep never raises on reachable states; an open port always has a RUNNING owner; a "
+            "payload gets past the running-guard, and send() hands a payload on, only for RUNNING software on an ON node (full: "
+            "every shipped receive() has the guard); the registries agree after EVERY install/uninstall sequence (full: no freshness "
+            "hypothesis) and installs/uninstalls never raise. Tie: guard tables, validators, countdown idioms, enum values, defaults, "
+            "the shipped-class table (every receive() guarded), the install guard / eviction / class-map writes / uninstall "
+            "clean-ups, the docs masking table regenerated from the source (Gen/Software.lean) with obligations C13_gen_*; "
+            "differential rig R-svc on real Computer, Server, Router, Switch and Firewall nodes over every shipped service and "
+            "application class.",
     "note": "C13-specific: payload *processing* of each class is not modelled (only routing and the running-guard); class-specific "
             "internals that call lifecycle methods themselves (C2Beacon closing itself on time-out, `execute` requests) are exercised "
-            "only as far as the generic requests reach; DatabaseService's nested FTPClient install is driven as two operations.",
+            "only as far as the generic requests reach; DatabaseService's nested FTPClient install is driven as two operations; "
+            "connection bookkeeping (add_connection / OVERWHELMED) is not modelled; frames are modelled for HostNode only.",
     "technique": "Lean 4 theorems over executable lifecycle and registry models; models tied by regenerated tables and a differential rig",
     "design_ref": "5/C13",
 }
@@ -81,6 +85,10 @@ def _check_case(ctx: Ctx, name: str, case: dict, res: dict, model: List[str], gu
             continue
         w = q.split()[0]
         ctx.count("op:" + w)
+        if w in ("isvc", "iapp") and len(q.split()) == 10:
+            ctx.count("install:" + ("configured" if q.split()[6] == "1" else "bare"))
+        if w in ("sapi", "aapi") and q.split()[2] in ("tick", "send"):
+            ctx.count(f"direct:{q.split()[2]}:{m}")
         if w in ("sreq", "areq"):
             ctx.count(f"req:{q.split()[2]}:{m}")
         elif m.startswith("recv"):
@@ -91,13 +99,18 @@ def _check_case(ctx: Ctx, name: str, case: dict, res: dict, model: List[str], gu
             raise RuntimeError(f"driver rejected line {q!r}")
     ctx.count("len:" + str(min(len(case["ops"]) // 10 * 10, 60)))
     ctx.count("focus:" + case.get("focus", "?"))
+    ctx.count("node:" + case["node"].get("kind", "computer"))
+    ctx.count("installs-refused", res.get("refused", 0))
+    ctx.count("installs-replacing", res.get("replaced", 0))
     # the property's oracles on the implementation
     seen_kinds = set()
     for (i, kind, detail, extra) in res["oracle"]:
+        # (signature kinds differ on purpose from those of the repaired findings F-22 / F-23, whose open entries may still
+        # be in known_findings.json: a regression must be reported as a VIOLATION, not as a known finding)
         if kind == "payload-handled-while-not-running":
-            sig = {"kind": kind, "cls": extra}
+            sig = {"kind": "not-running-software-acted", "cls": extra}
         else:
-            sig = {"kind": kind, "after_duplicate_install": bool(extra)}
+            sig = {"kind": kind, "after_reinstall": bool(extra)}
         key = json.dumps(sig, sort_keys=True)
         if key in seen_kinds:
             continue
@@ -191,7 +204,7 @@ def run(ctx: Ctx):
             ran = p["states"].get("RUNNING", {})
             ctx.count("probe-running-baseline:" + ("handled" if (ran.get("ret") or ran.get("sent") or ran.get("changed")) else "not-handled"))
         if leaks:
-            ctx.violation({"kind": "payload-handled-while-not-running", "cls": r["cls"]},
+            ctx.violation({"kind": "not-running-software-acted", "cls": r["cls"], "via": "receive-probe"},
                           f"{r['cls']}.receive processes a payload while {','.join(leaks)}", {"probe": r["cls"], "result": p})
         if leaks and guards.get(r["cls"], False):
             ctx.oblige(f"gen-cross-check:{r['cls']} receive-guard", "extractor", False,
@@ -205,13 +218,15 @@ def run(ctx: Ctx):
         cases.append(("corpus:" + f.name, json.loads(f.read_text())["case"]))
     # bounded-exhaustive: every word of the given length over {7 lifecycle requests, tick, shutdown, startup}
     if not ctx.thorough:
-        plan = [("dns-client", 3, [(0, 0), (1, 2)])]
+        plan = [("dns-client", 3, [(0, 0), (1, 2)], "computer"), ("terminal", 2, [(1, 1)], "router"), ("icmp", 2, [(0, 2)], "firewall")]
     else:
-        plan = [("dns-client", 4, [(0, 0), (1, 2)]), ("terminal", 3, [(0, 0), (2, 1)]), ("ntp-client", 3, [(1, 1)])]
-    for t, depth, dur_list in plan:
+        plan = [("dns-client", 4, [(0, 0), (1, 2)], "computer"), ("terminal", 3, [(0, 0), (2, 1)], "computer"),
+                ("ntp-client", 3, [(1, 1)], "server"), ("terminal", 3, [(1, 1)], "router"), ("icmp", 3, [(0, 2)], "firewall"),
+                ("user-session-manager", 3, [(1, 0)], "router")]
+    for t, depth, dur_list, kind in plan:
         for durs in dur_list:
-            for k, c in enumerate(rig.exhaustive_cases(depth, t, durs)):
-                cases.append((f"exh:{t}:{depth}:{durs}:{k}", c))
+            for k, c in enumerate(rig.exhaustive_cases(depth, t, durs, kind)):
+                cases.append((f"exh:{kind}:{t}:{depth}:{durs}:{k}", c))
     n = ctx.scale(250, 5000)
     rng = ctx.rng.fork("svc")
     for k in range(n):
